@@ -299,11 +299,18 @@ def read_text(text, var):
         return None, None
     imports = []
     body = list(mod.body)
-    while body and isinstance(body[0], ast.ImportFrom):
+    while body and isinstance(body[0], (ast.ImportFrom, ast.Import)):
         n = body.pop(0)
-        if n.level != 0 or len(n.names) != 1 or n.names[0].asname is not None:
+        if len(n.names) != 1 or n.names[0].asname is not None:
             return None, None
-        imports.append([n.module, n.names[0].name])
+        if isinstance(n, ast.Import):
+            if "." in n.names[0].name:
+                return None, None
+            imports.append([n.names[0].name, None])       # import m
+        elif n.level != 0:
+            return None, None
+        else:
+            imports.append([n.module, n.names[0].name])   # from m import n
     if len(body) != 1 or not isinstance(body[0], ast.Assign) or len(body[0].targets) != 1:
         return None, None
     tgt = body[0].targets[0]
@@ -319,6 +326,8 @@ def import_lines_textual(text):
         if line.startswith("from ") and " import " in line:
             m, n = line[5:].split(" import ", 1)
             out.append([m, n])
+        elif line.startswith("import "):
+            out.append([line[7:], None])
         else:
             break
     return out
